@@ -28,7 +28,7 @@ META = {
     "bounds": "map addr_width 3-4 (thorough 2-6), map alignment 0-2; call sequences of length 2 exhaustively over 14 "
               "call kinds + seeded sample of length 3 (thorough: length 3 exhaustively over 9 kinds + sample of "
               "length 4); addresses and sizes symbolic integers in [0, 2^aw+2]; per-call alignment 0-2; windows of "
-              "ratio 1 (equal width), sparse, dense ratio 2 and 4",
+              "ratio 1 (equal width), sparse, dense ratio 2, 4, 8 and 16",
     "outside": "more than 4 live ranges; the numeric alignment rule of dense windows (excluded by the property); "
                "acceptance completeness (a legal call being refused) is not part of the statement",
     "assumptions": ["module globals isinstance/range of amaranth_soc.memory rebound to proxies-aware versions while a "
@@ -58,6 +58,8 @@ KINDS = {
     "sparse":    {"k": "win", "addr": False, "waw": 2, "wdw": 8, "sparse": True, "wal": 0},
     "dense2@":   {"k": "win", "addr": True, "waw": 2, "wdw": 16, "sparse": False, "wal": 1},
     "dense4":    {"k": "win", "addr": False, "waw": 3, "wdw": 8, "sparse": False, "wal": 2},
+    "dense8":    {"k": "win", "addr": False, "waw": 4, "wdw": 4, "sparse": False, "wal": 3},
+    "dense16@":  {"k": "win", "addr": True, "waw": 6, "wdw": 2, "sparse": False, "wal": 4},
     "align1":    {"k": "align", "to": 1},
     "align3":    {"k": "align", "to": 3},
     "freeze":    {"k": "freeze"},
